@@ -445,3 +445,112 @@ def rearrange_tail(ctx, rule):
     rule.check(okb, ctx.construct(f, extra='first state command'),
                'the FIRST state-changing command is not the cut point',
                ctx.loc(f))
+
+
+def _class_attrs(prog, cq):
+    out = set()
+    for k in prog.mro(cq):
+        node = prog.classes.get(k)
+        if node is None:
+            continue
+        for st in node.body:
+            if isinstance(st, (ast.FunctionDef, ast.AsyncFunctionDef)):
+                out.add(st.name)
+                for x in ast.walk(st):
+                    if isinstance(x, ast.Attribute) and \
+                            isinstance(x.ctx, ast.Store) and \
+                            dotted(x.value) == 'self':
+                        out.add(x.attr)
+            elif isinstance(st, ast.Assign):
+                for t in st.targets:
+                    if isinstance(t, ast.Name):
+                        out.add(t.id)
+    return out
+
+
+def narrowed_attrs(ctx, rule, fq, var, base):
+    """Typestate on a command variable: under the isinstance() facts that
+    dominate an access `var.attr`, every class the variable can still be
+    must define that attribute.  (A dispatch whose test was inverted or
+    moved reads attributes of the wrong command kind.)"""
+    prog = ctx.prog
+    f = prog.func(fq)
+    cfg = ctx.cfg(f)
+    universe = {c for c in prog.all_subclasses(base)} | {base}
+    n_acc = 0
+    for n in cfg.nodes:
+        if n.kind not in ('stmt', 'test') or n.ast is None:
+            continue
+        accs = [x for x in cfg.own_nodes(n) if isinstance(x, ast.Attribute)
+                and isinstance(x.ctx, ast.Load) and
+                isinstance(x.value, ast.Name) and x.value.id == var]
+        if not accs:
+            continue
+        cand = set(universe)
+        for truth in (True, False):
+            for b in U.guard_match(cfg, n, 'isinstance(%s, __T)' % var,
+                                   truth):
+                t = b['__T']
+                listed = set()
+                for e in getattr(t, 'elts', [t]):
+                    d = dotted(e)
+                    r = prog.resolve_dotted(f.module, d) if d else None
+                    if r in prog.classes:
+                        listed |= {r} | set(prog.all_subclasses(r))
+                if truth:
+                    cand &= listed
+                else:
+                    cand -= listed
+        for x in accs:
+            n_acc += 1
+            missing = sorted(c.rsplit('.', 1)[1] for c in cand
+                             if x.attr not in _class_attrs(prog, c))
+            rule.check(not missing and bool(cand),
+                       ctx.construct(f, extra='%s.%s' % (var, x.attr)),
+                       '%s.%s is read where %s can be a %s, which has no '
+                       'such attribute' % (var, x.attr, var,
+                                           '/'.join(missing) or 'nothing'),
+                       ctx.loc(f, x))
+    if n_acc < 3:
+        raise AnalysisError('%s: only %d accesses of %s' % (fq, n_acc, var))
+
+
+def build_task_from_command(ctx, rule):
+    """task_handler._build_task_from_command builds a task for each of the
+    three task command kinds; an existing execution keeps its waiting state
+    and is reset exactly when the command says so."""
+    prog = ctx.prog
+    f = prog.func('mistral.engine.task_handler._build_task_from_command')
+    cfg = ctx.cfg(f)
+    base = 'mistral.workflow.commands.'
+    rets = [x for x in cfg.nodes if x.kind == 'stmt' and
+            isinstance(x.ast, ast.Return) and x.ast.value is not None]
+    for cls in ('RunTask', 'RunExistingTask', 'SkipTask'):
+        ok = False
+        for x in rets:
+            pos = set()
+            for b in U.guard_match(cfg, x, 'isinstance(cmd, __T)', True):
+                pos |= _isinstance_classes(b)
+            ok = ok or pos == {cls}
+        rule.check(ok, ctx.construct(f, extra='builds ' + cls),
+                   'no task is built for %s commands (the dispatcher would '
+                   'raise "Unsupported workflow command")' % cls, ctx.loc(f))
+    rs = [n for n, c in cfg.calls(
+        lambda c: U.call_name(c) == 'reset' and
+        isinstance(c.func, ast.Attribute) and
+        dotted(c.func.value) == 'task')]
+    rule.check(bool(rs) and all(U.guarded(cfg, n, 'cmd.reset', True)
+                                for n in rs),
+               ctx.construct(f, extra='reset iff requested'),
+               'the task is not reset exactly when the rerun command asks '
+               'for it', ctx.loc(f))
+    for n, c in U.calls_in(cfg, '_create_task'):
+        w = U.kwarg(c, 'waiting')
+        te = U.kwarg(c, 'task_ex')
+        if te is not None and w is not None:
+            rule.check(U.phas(w, 'cmd.task_ex.state == states.WAITING') and
+                       isinstance(w, ast.Compare) and
+                       isinstance(w.ops[0], ast.Eq),
+                       ctx.construct(f, extra='existing task keeps waiting'),
+                       'an existing task execution is not treated as waiting '
+                       'exactly when its state is WAITING', ctx.loc(f, c))
